@@ -10,5 +10,6 @@ mkdir -p work evidence
 harness/target/debug/verif-harness dump-consts > work/consts.json
 python3 tools/gen.py work/consts.json
 python3 tools/shapes.py /repo/src
-(cd lean && lake build SynthVerif SynthVerif.AuditTool driver)
+python3 tools/rs2lean.py /repo/src
+(cd lean && lake build SynthVerif SynthVerif.AuditTool driver SynthVerif.Tie.Adsr SynthVerif.Tie.LfoRun SynthVerif.Tie.QuantRun)
 echo "setup ok"
